@@ -349,3 +349,49 @@ def run(ctx, rep):
     rep.ob("C10.read-only", "names bound by `import a, b from m` are created const", "ok" if marks else "violated",
            "the imported identifier is a clone of the exporter's identifier (const only if exported const); it is never marked const, so "
            "`import a from m` followed by `a = 5` is accepted", imn.span, fn=imn.path, key="C10.read-only|import-names")
+
+    # ---- 4. the flag travels with the identifier -----------------------------------------------------------------
+    # Every construction of an Ident (aggregate or Ident::new) inside a function that receives an Ident, or that takes the new
+    # identifier's name from an existing one, must take read_only from that same identifier; and the only writes to the
+    # field are `= true` (mark_const).  A copy that forgets the flag turns a const into an assignable name in whichever check reads the copy.
+    IDENT = "compiler::ast::ident::Ident"
+    n_sites = 0
+    n_derived = 0
+    for f in F.crates["compiler"].fns:
+        if f.path == "compiler::ast::ident::Ident::new":
+            continue
+        ident_params = [i + 1 for i, t in enumerate(f.d.get("inputs", [])) if t.replace("&mut ", "").replace("&", "").strip().startswith(IDENT)]
+        sites = []
+        for bi, si, dst, rv, st in f.assigns():
+            if "agg" in rv and rv["agg"].get("adt") == IDENT:
+                a = F.adt(IDENT)
+                names = [x["name"] for x in a["variants"][0]["fields"]]
+                sites.append((rv["ops"][names.index("name")], rv["ops"][names.index("read_only")], st.get("us") or st.get("sp")))
+            if dst.get("p") and any(e[0] == "field" and len(e) > 2 and e[2] == "read_only" for e in dst["p"]):
+                k = op_const(rv["use"]) if "use" in rv else None
+                okw = bool(k) and k.get("int") == "1"
+                rep.ob("C10.flag-carried", "the only write to Ident.read_only sets it (in %s)" % mir.short(f.path), "ok" if okw else "violated",
+                       "", st.get("us") or st.get("sp"), fn=f.path, key="C10.flag-carried|write|%s" % mir.short(f.path))
+        for c in f.calls_to("compiler::ast::ident::Ident::new"):
+            if len(c.args) == 3:
+                sites.append((c.args[0], c.args[2], c.span))
+        for i, (name_op, ro_op, where) in enumerate(sites):
+            n_sites += 1
+            src_params = set()
+            nl = op_local(name_op)
+            if nl is not None:
+                for o, fields in rules.trace_paths(f, nl, transparent=tuple(rules.TRANSPARENT) + ("compiler::ast::ident::Ident::name", "alloc::borrow::ToOwned::to_owned",
+                                                                                                    "alloc::string::ToString::to_string", "compiler::ast::ident::Ident::boxed_name")):
+                    if o[0] == "arg" and o[1] in ident_params:
+                        src_params.add(o[1])
+            if not src_params and not ident_params:
+                continue
+            n_derived += 1
+            rl = op_local(ro_op)
+            tp = rules.trace_paths(f, rl, transparent=tuple(rules.TRANSPARENT) + ("compiler::ast::ident::Ident::is_const",)) if rl is not None else set()
+            want = src_params or set(ident_params)
+            okc = bool(tp) and all(o[0] == "arg" and o[1] in want for o, _ in tp)
+            rep.ob("C10.flag-carried", "%s builds an identifier from another one and keeps its read-only flag" % mir.short(f.path), "ok" if okc else "violated",
+                   "read_only operand: %s" % (op_const(ro_op) or sorted(tp, key=str)), where, fn=f.path, key="C10.flag-carried|%s|#%d" % (mir.short(f.path), i))
+    rep.floor("C10.Ident construction sites", n_sites, 7)
+    rep.floor("C10.Ident constructions derived from another Ident", n_derived, 2)
